@@ -44,7 +44,7 @@ hx.patch_clock(hd)
 KNOWN = set(x for x in os.environ.get("XH_KNOWN", "").split(",") if x)
 
 from harness.c13_common import *  # noqa: F401,F403  (NAMES, TEXTS, *_STATES, MAXK, VALID, bodies, zid_of, mdate_of, strip_zids)
-from harness.c13_common import MAXK, NAMES, TEXTS, FILE_STATES, INDEX_STATES, HASH_STATES, VALID, bodies, zid_of, mdate_of, strip_zids  # noqa: F401
+from harness.c13_common import MAXK, NAMES, TEXTS, FILE_STATES, INDEX_STATES, HASH_STATES, VALID, bodies, zid_of, mdate_of, strip_zids, mask_new_zids  # noqa: F401
 
 
 def _note(b, p, line_no):
@@ -227,9 +227,16 @@ def run(fs, durable, cmd_kind, paths, k, torn):
     return sess
 
 
-def judge(fs, durable, originals, cmd_kind, paths):
+def judge(fs, durable, originals, cmd_kind, paths, uninterrupted=None):
     """the end state the statement demands after the re-run"""
     files = {n: fs.files["/z/" + n] for n in NAMES if ("/z/" + n) in fs.files}
+    if uninterrupted is not None:
+        # "exactly as after an uninterrupted run": the pages in scope read as they do after an uninterrupted run from the same
+        # state, up to the values of the ZIDs handed out today (same stamps, same modify dates, same text)
+        for n in (sorted(set(files) | set(uninterrupted)) if (cmd_kind == 1 or not paths) else list(paths)):
+            a, b = files.get(n), uninterrupted.get(n)
+            if (a is None) != (b is None) or (a is not None and mask_new_zids(a) != mask_new_zids(b)):
+                return "page %s differs from what an uninterrupted run leaves: %r vs %r" % (n, a, b)
     hashmap = fs.files["/z/.zorg/file_hash.json"]
     if not isinstance(hashmap, hx._JsonBlob):
         return "the hash map is not valid JSON after the re-run"
@@ -338,7 +345,10 @@ def _converge(s0, s1, mode, k, torn):
         return "the re-run fails: %s: %s" % (type(e).__name__, e)        # "completes without error"
     if sess.dup:
         return "page %r added twice without removal" % (sess.dup,)
-    return judge(fs, durable, originals, cmd_kind, paths)
+    fs_u, durable_u = setup((f0, f1), (i0, i1), (h0, h1))
+    run(fs_u, durable_u, cmd_kind, paths, -1, False)
+    files_u = {n: fs_u.files["/z/" + n] for n in NAMES if ("/z/" + n) in fs_u.files}
+    return judge(fs, durable, originals, cmd_kind, paths, files_u)
 
 
 def kf_lost_writeback(fs, durable):
